@@ -58,7 +58,7 @@ M = Monitor(
           "non-default K or lb > 0.  chromatic scaling: non-trivial = at least one row with non-zero saturation and "
           "(scaling needed, or zero rows, or explicit neutral point, or absolute capture, or dichromat).  distinct = hash "
           "of rounded inputs"),
-    budget={"quick": (16000, 45), "thorough": (400000, 600)},
+    budget={"quick": (10000, 45), "thorough": (400000, 600)},
     anchors=[("dreye.api.estimator", "ReceptorEstimator.hull_l1_scaling"),
              ("dreye.api.estimator", "ReceptorEstimator.hull_dist_scaling"),
              ("dreye.api.project", "alpha_for_B_with_P"),
@@ -653,16 +653,17 @@ def chk_dist(inp, c):
     if has_zero and not c.violations:
         twin = c.call(est.gamut_dist_scaling, _layout(B[nzr], "C"), _where="gamut_dist_scaling(zero rows removed)", **kw)
         twin = np.asarray(twin, dtype=float)
-        if c.require(twin.shape == out[nzr].shape and np.all(np.isfinite(twin)), "twin run without the zero rows returns an array",
-                     mechanism="dist:twin-shape"):
+        key = "dist:zero-rows-influence-factor:" + relkind + (":float" if B.dtype.kind == "f" else ":int-dtype")
+        if c.require(twin.shape == out[nzr].shape and np.all(np.isfinite(twin)),
+                     "twin run without the zero rows returns a finite array of the same shape", mechanism=key,
+                     twin_head=twin[:3] if twin.ndim == 2 else None):
             dtw = float(np.max(np.abs(twin - out[nzr]))) / float(tot.max())
             # rows within 1e-6 of the rim may or may not count as inside: 'unchanged' and 'contracted onto the rim'
             # are both acceptable there and differ by up to ~1e-6
             tol_tw = 1e-5 if state == "rim-band" else 1e-10
             c.margin("dist zero rows do not influence the result", dtw, tol_tw)
-            c.require(dtw <= tol_tw, "all-zero rows do not influence how the other rows are scaled",
-                      mechanism="dist:zero-rows-influence-factor:" + ("float" if B.dtype.kind == "f" else "int-dtype")
-                      + (":neutral-explicit" if explicit else ":neutral-default"), max_rel_dev=dtw, alpha_with_zero_rows=alpha)
+            c.require(dtw <= tol_tw, "all-zero rows do not influence how the other rows are scaled", mechanism=key,
+                      max_rel_dev=dtw, alpha_with_zero_rows=alpha, neutral="explicit" if explicit else "default")
 
     # ---- recorded, not asserted: tightness of the common factor
     rec = {"state": state, "alpha": alpha, "rows": int(len(B)), "zero_rows": int(zero.sum()),
